@@ -142,7 +142,7 @@ def handleExec (toks : List String) : String :=
       let cs := match ClifCompile.compile prog (fun k => (c.helpers.find? (·.1 == k)).isSome) with
         | .ok => "compiled" | .err => "compile-err" | .panic => "compile-panic"
       let js := match JitEmit.compile prog haddr true false with | .ok _ => "compiled" | .error .err => "compile-err" | .error .panic => "compile-panic"
-      s!"noexec | claim=out | jitsem={js} | clifsem={cs} | jitcodesem={jc}"
+      "noexec" ++ detail c (Interp.init (mkMem c)) ++ s!" | claim=out | jitsem={js} | clifsem={cs} | jitcodesem={jc}"
     else
     match Verifier.check prog with
     | .ok =>
